@@ -421,7 +421,7 @@ def inline_helpers(fns_json):
     # functions whose body differs from the pinned tree: combinators with closure literals become plain control flow,
     # tests of values with a known constructor are threaded (see desugar.py)
     try:
-        from .desugar import desugar_combinators, thread_known_ctors, splice_closure_calls, desugar_for_each
+        from .desugar import desugar_combinators, thread_known_ctors, splice_closure_calls, desugar_for_each, unroll_array_loops
 
         # (the tag-table conversions of the wire enums stay as they are: the codec rules fold them concretely, which
         # wants the branch-free combinator form)
@@ -431,6 +431,7 @@ def inline_helpers(fns_json):
             for j in changed:
                 nj = desugar_combinators(j, by_key)
                 nj = desugar_for_each(nj, by_key)
+                nj = unroll_array_loops(nj)
                 nj = splice_closure_calls(nj, by_key)
                 nj = thread_known_ctors(nj)
                 if nj is not j:
